@@ -216,13 +216,24 @@ def h(sym, template, kind, site, M):
         sym.check(idle_ticks and idle_ticks[-1], "C03/run-ended-while-a-tasker-was-running", lambda: "%s" % rlog)
         sym.check(not any(idle_ticks[:-1]), "C03/run-continued-after-an-idle-tick", lambda: "%s\n%s" % (idle_ticks, rlog))
     # frames: every framer other than the raiser has balanced enter/exit, exits bottom-up
+    depth = {}
+    for framer in house.framers:       # depth of a frame in its hierarchy, from the (immutable) over links
+        for frame in framer.frameNames.values():
+            d, o = 0, frame.over
+            while o is not None:
+                d, o = d + 1, o.over
+            depth[(framer.name, frame.name)] = d
     stacks = {}
     for (fr, f, c) in LOG:
         st = stacks.setdefault(fr, [])
         if c == "enter":
+            sym.check(all(depth[(fr, g)] < depth[(fr, f)] for g in st), "C03/frames-not-entered-top-down",
+                      lambda: "%s %s entered while %s are entered\n%s" % (fr, f, st, LOG))
             st.append(f)
         elif c == "exit":
             sym.check(st and st[-1] == f, "C03/frames-not-exited-bottom-up", lambda: "%s %s stack %s\n%s" % (fr, f, st, LOG))
+            sym.check(all(depth[(fr, g)] <= depth[(fr, f)] for g in st), "C03/frames-not-exited-bottom-up",
+                      lambda: "%s %s exited while deeper frames %s are entered\n%s" % (fr, f, st, LOG))
             st.pop()
     for fr, st in stacks.items():
         if fr == raiser:
